@@ -190,4 +190,71 @@ theorem mapDict_nodup (e : SEnv) (kvs : List (Str × JVal)) (name : Str) (r : Li
     (h : mapDict e kvs name = some r) : ∀ c ∈ r, NodupKeys c.attrs :=
   dictClass_nodup e kvs name r h
 
+theorem exceptMapM_mem {α β : Type} (f : α → Except String β) : ∀ (xs : List α) (rs : List β),
+    xs.mapM f = .ok rs → ∀ r ∈ rs, ∃ x ∈ xs, f x = .ok r := by
+  intro xs
+  induction xs with
+  | nil => intro rs h r hr; simp [List.mapM_nil, pure, Except.pure] at h; subst h; simp at hr
+  | cons x xs ih =>
+    intro rs h r hr
+    simp only [List.mapM_cons, bind, Except.bind] at h
+    cases hx : f x with
+    | error e => simp [hx] at h
+    | ok b =>
+      simp only [hx] at h
+      cases hxs : xs.mapM f with
+      | error e => simp [hxs] at h
+      | ok bs =>
+        simp only [hxs, pure, Except.pure, Except.ok.injEq] at h
+        subst h
+        simp only [List.mem_cons] at hr
+        rcases hr with rfl | hr
+        · exact ⟨x, by simp, hx⟩
+        · obtain ⟨y, hy, hfy⟩ := ih bs hxs r hr
+          exact ⟨y, by simp [hy], hfy⟩
+
+theorem mapJsonItem_nodup (e : SEnv) (name : Str) (x : JVal) (cs : List Cls)
+    (h : mapJsonItem e name x = .ok cs) : ∀ c ∈ cs, NodupKeys c.attrs := by
+  cases x with
+  | dict kvs =>
+    simp only [mapJsonItem] at h
+    cases hm : mapDict e kvs name with
+    | none => simp [hm] at h
+    | some cs' =>
+      simp only [hm, Except.ok.injEq] at h
+      subst h
+      exact mapDict_nodup e kvs name cs' hm
+  | scalar _ => simp [mapJsonItem] at h
+  | list _ => simp [mapJsonItem] at h
+
+/-- every class `process_json_documents` maps from one document has pairwise different attr keys -/
+theorem mapJsonDoc_nodup (e : SEnv) (doc : JVal) (name : Str) (r : List Cls)
+    (h : mapJsonDoc e doc name = .ok r) : ∀ c ∈ r, NodupKeys c.attrs := by
+  cases doc with
+  | dict kvs => exact mapJsonItem_nodup e name (.dict kvs) r (by simpa [mapJsonDoc] using h)
+  | list xs =>
+    simp only [mapJsonDoc] at h
+    cases hm : xs.mapM (mapJsonItem e name) with
+    | error k => rw [hm] at h; cases h
+    | ok css =>
+      rw [hm] at h
+      simp only [Except.ok.injEq] at h
+      subst h
+      intro c hc
+      simp only [List.mem_flatten] at hc
+      obtain ⟨cs, hcs, hccs⟩ := hc
+      obtain ⟨x, _, hx⟩ := exceptMapM_mem _ xs css hm cs hcs
+      exact mapJsonItem_nodup e name x cs hx c hccs
+  | scalar sc =>
+    cases sc with
+    | str s =>
+      simp only [mapJsonDoc] at h
+      split at h
+      · simp only [Except.ok.injEq] at h; subst h; simp
+      · cases h
+    | none => simp [mapJsonDoc] at h
+    | int _ => simp [mapJsonDoc] at h
+    | bool _ => simp [mapJsonDoc] at h
+    | float _ _ => simp [mapJsonDoc] at h
+
 end Xs.Samples
